@@ -151,7 +151,7 @@ func resetEffects(p *Program, fn *ssa.Function, sn string, cover map[string]*fie
 			} else if cc.IsInvoke() {
 				name = cc.Method.Name()
 			}
-			mutating := name == "Reset" || name == "Clear" || strings.HasPrefix(name, "Store")
+			mutating := name == "Reset" || name == "Clear" || strings.HasPrefix(name, "Store") || fullResetMethod(callee)
 			if first != nil && mutating {
 				// on the address of a field (metaBuf.Reset(), atomic.StoreUint64(&x.f, 0))
 				if f, ok := isRecvField(first); ok {
@@ -316,6 +316,51 @@ func reachesBlock(from, to *ssa.BasicBlock) bool {
 		work = append(work, x.Succs...)
 	}
 	return false
+}
+
+// fullResetMethod: a method that assigns every field of the struct its receiver points to, on every path
+// (`func (c *CountHashWriter) reset(w io.Writer) { c.w = w; c.crc = 0; c.n = 0; c.s = nil }`): calling it on a
+// kept object re-initialises that object, whatever the method is called.
+func fullResetMethod(f *ssa.Function) bool {
+	if f == nil || len(f.Blocks) == 0 || f.Signature.Recv() == nil || len(f.Params) == 0 {
+		return false
+	}
+	pt, ok := f.Signature.Recv().Type().Underlying().(*types.Pointer)
+	if !ok {
+		return false
+	}
+	st, ok := pt.Elem().Underlying().(*types.Struct)
+	if !ok || st.NumFields() == 0 {
+		return false
+	}
+	recv := f.Params[0]
+	stored := map[int]bool{}
+	rets := returnsOf(f)
+	eachInstr(f, func(b *ssa.BasicBlock, in ssa.Instruction) {
+		store, ok := in.(*ssa.Store)
+		if !ok {
+			return
+		}
+		if store.Addr == ssa.Value(recv) {
+			if _, ok := wholeStructStore(store); ok {
+				for i := 0; i < st.NumFields(); i++ {
+					stored[i] = true
+				}
+			}
+			return
+		}
+		fa, ok := store.Addr.(*ssa.FieldAddr)
+		if !ok || fa.X != ssa.Value(recv) {
+			return
+		}
+		for _, r := range rets {
+			if !(b == r.Block() || b.Dominates(r.Block())) {
+				return
+			}
+		}
+		stored[fa.Field] = true
+	})
+	return len(stored) == st.NumFields()
 }
 
 // blocksReaching: the blocks from which b can be reached over at least one edge.
